@@ -52,7 +52,7 @@ def check(ctx):
         n = 0
         optsets = [[], ["-inline", "-switch"], ["-noast"]] if ctx.tier == "quick" else [[], ["-inline"], ["-switch"], ["-inline", "-switch"], ["-noast"], ["-noast", "-inline", "-switch"]]
         for strict, src, out, gclass, opts in itertools.product([False, True], ["file", "missing", "dir", "stdin", "stdin-dash"],
-                                                               ["unset", "named", "named-bad", "dash", "default-bad"],
+                                                               ["unset", "named", "named-bad", "dash", "default-bad", "named-full", "dash-full"],
                                                                ["ok", "warn", "syntax", "badgo"], optsets):
             if out == "default-bad" and src not in ("file",):
                 continue
@@ -72,7 +72,9 @@ def check(ctx):
                 args += ["-output", named]
             elif out == "named-bad":
                 args += ["-output", os.path.join(d, "nodir", "out.go")]
-            elif out == "dash":
+            elif out == "named-full":
+                args += ["-output", "/dev/full"]         # opens, every write fails
+            elif out in ("dash", "dash-full"):
                 args += ["-output", "-"]
             elif out == "default-bad":
                 os.makedirs(expect_default)          # <grammar>.go is a directory: cannot be opened for writing
@@ -87,10 +89,19 @@ def check(ctx):
             else:
                 args.append("-")
                 stdin = GRAMMARS[gclass]
-            rc, so, se = C.run(args, cwd=d, input=stdin if stdin is not None else "", timeout=60)
+            if out == "dash-full":
+                import subprocess
+                try:
+                    with open("/dev/full", "w") as full:
+                        pr = subprocess.run(args, cwd=d, input=(stdin if stdin is not None else ""), stdout=full, stderr=subprocess.PIPE, text=True, timeout=60)
+                    rc, so, se = pr.returncode, "", pr.stderr
+                except subprocess.TimeoutExpired:
+                    rc, so, se = 124, "", ""
+            else:
+                rc, so, se = C.run(args, cwd=d, input=stdin if stdin is not None else "", timeout=60)
             # what the model is asked
             m_src = "file" if src in ("file", "missing", "dir") else "stdin"
-            m_out = {"unset": "unset", "named": "named", "named-bad": "named", "dash": "dash", "default-bad": "unset"}[out]
+            m_out = {"unset": "unset", "named": "named", "named-bad": "named", "dash": "dash", "default-bad": "unset", "named-full": "named", "dash-full": "dash"}[out]
             open_in = src != "missing"
             dest = "named" if m_out == "named" else ("stdout" if (m_out == "dash" or m_src == "stdin") else "grammar.go")
             open_out = out not in ("named-bad", "default-bad") and not (src == "dir" and out == "unset")
@@ -101,7 +112,8 @@ def check(ctx):
                 open_out = True
             cid = "c%d" % n
             comp = {"ok": "ok", "warn": "warn", "syntax": "ok", "badgo": "badgo"}[gclass]
-            mlines.append("cli %s %d %s %s %d %d %d %d %s" % (cid, strict, m_src, m_out, open_in, open_out, read_ok, gclass != "syntax", comp))
+            write_ok = out not in ("named-full", "dash-full")
+            mlines.append("cli %s %d %s %s %d %d %d %d %s %d" % (cid, strict, m_src, m_out, open_in, open_out, read_ok, gclass != "syntax", comp, write_ok))
             # where is a complete parser?
             found = []
             for label, pth in (("grammar.go", expect_default), ("named", named), ("grammar.go", d + ".go")):
@@ -142,9 +154,9 @@ def check(ctx):
         elif m["complete"] != "-" and m["complete"] not in c["found"]:
             bad.append((c, "no complete parser at %s (found at %s)" % (m["complete"], c["found"])))
         # the property itself, directly on the implementation (needs no model)
-        if exit0 and c["dest"] not in c["found"]:
+        if exit0 and c["dest"] not in c["found"] and c["out"] not in ("named-full", "dash-full"):
             bad.append((c, "PROPERTY: exit 0 without a complete parser at the requested destination %s (found %s)" % (c["dest"], c["found"])))
-        if exit0 and (c["src"] in ("missing", "dir") or c["out"] in ("named-bad", "default-bad") or c["grammar"] in ("syntax", "badgo")):
+        if exit0 and (c["src"] in ("missing", "dir") or c["out"] in ("named-bad", "default-bad", "named-full", "dash-full") or c["grammar"] in ("syntax", "badgo")):
             bad.append((c, "PROPERTY: failure class exits 0"))
         nontriv.add((c["strict"], c["src"], c["out"], c["grammar"]))
     rep = 0
